@@ -140,7 +140,7 @@ def worker(ctx, prop):
                  loaded=bool(r.get('face')), rejected=not r.get('face'), seg=bool(r.get('seg')), seg_null=bool(r.get('face') and not r.get('seg')),
                  rule_fired=r.get('fired', 0) > 0, attached=st_.get('att', 0) > 0, attach_depth2=st_.get('depth', 0) >= 2, reordered=bool(st_.get('reord')),
                  length_changed=st_.get('n') != st_.get('nc'), assoc_nontrivial=bool(st_.get('assoc')), late_assoc=r.get('late', 0) > 0,
-                 loop_half_bound=any(p[0] * 2 > p[1] for p in r.get('passes', [])), growth_cap=st_.get('n', 0) > 32 * max(1, st_.get('nc', 1)))
+                 long_text=len(case['text']) >= 512, loop_half_bound=any(p[0] * 2 > p[1] for p in r.get('passes', [])), growth_cap=st_.get('n', 0) > 32 * max(1, st_.get('nc', 1)))
 
     def make_wild(deco):
         @deco
@@ -168,6 +168,9 @@ def worker(ctx, prop):
         def t(data):
             f = data.draw(st.sampled_from(names))
             txt = [c for c in data.draw(fonts.text_strategy(sup[f], 0, ctx.n(24, 64))) if c]
+            if prop == 'C02' and txt and data.draw(st.integers(0, ctx.n(60, 12))) == 0:
+                # work-bound class: long texts (the H1 bound scales with the slot count; the harness checks it per pass)
+                txt = (txt * (ctx.n(512, 4096) // len(txt) + 1))[:ctx.n(512, 4096)]
             case = dict(kind='shipped', font=f, text=txt, dir=data.draw(st.integers(0, 7)), enc=data.draw(st.sampled_from([1, 2, 4])),
                         ppm=data.draw(st.sampled_from([0.0, 0.0, 14.0])), check_gid=True)
             r, other = judge(drv, case, prop, ctx)
